@@ -18,6 +18,7 @@ __all__ = [
 
 not_loaded = object()
 yaml_default_loader = None
+yaml_default_dumper = None
 
 
 def load_basic(value):
@@ -40,30 +41,19 @@ def load_basic(value):
     return not_loaded
 
 
-def get_yaml_default_loader():
-    global yaml_default_loader
-    if yaml_default_loader:
-        return yaml_default_loader
+# https://stackoverflow.com/a/37958106/2732151
+def remove_implicit_resolver(cls, tag_to_remove):
+    if "yaml_implicit_resolvers" not in cls.__dict__:
+        cls.yaml_implicit_resolvers = cls.yaml_implicit_resolvers.copy()
 
-    import yaml
+    for first_letter, mappings in cls.yaml_implicit_resolvers.items():
+        cls.yaml_implicit_resolvers[first_letter] = [(tag, regexp) for tag, regexp in mappings if tag != tag_to_remove]
 
-    class DefaultLoader(getattr(yaml, "CSafeLoader", yaml.SafeLoader)):
-        pass
 
-    # https://stackoverflow.com/a/37958106/2732151
-    def remove_implicit_resolver(cls, tag_to_remove):
-        if "yaml_implicit_resolvers" not in cls.__dict__:
-            cls.yaml_implicit_resolvers = cls.yaml_implicit_resolvers.copy()
-
-        for first_letter, mappings in cls.yaml_implicit_resolvers.items():
-            cls.yaml_implicit_resolvers[first_letter] = [
-                (tag, regexp) for tag, regexp in mappings if tag != tag_to_remove
-            ]
-
-    remove_implicit_resolver(DefaultLoader, "tag:yaml.org,2002:timestamp")
-    remove_implicit_resolver(DefaultLoader, "tag:yaml.org,2002:float")
-
-    DefaultLoader.add_implicit_resolver(
+def set_float_implicit_resolver(cls):
+    """Replaces the float resolver by one that also accepts floats without dot, e.g. 1e3."""
+    remove_implicit_resolver(cls, "tag:yaml.org,2002:float")
+    cls.add_implicit_resolver(
         "tag:yaml.org,2002:float",
         re.compile(
             """^(?:
@@ -78,8 +68,39 @@ def get_yaml_default_loader():
         list("-+0123456789."),
     )
 
+
+def get_yaml_default_loader():
+    global yaml_default_loader
+    if yaml_default_loader:
+        return yaml_default_loader
+
+    import yaml
+
+    class DefaultLoader(getattr(yaml, "CSafeLoader", yaml.SafeLoader)):
+        pass
+
+    remove_implicit_resolver(DefaultLoader, "tag:yaml.org,2002:timestamp")
+    set_float_implicit_resolver(DefaultLoader)
+
     yaml_default_loader = DefaultLoader
     return yaml_default_loader
+
+
+def get_yaml_default_dumper():
+    """Dumper that resolves floats like the loader, so that strings such as '1e3' get quoted."""
+    global yaml_default_dumper
+    if yaml_default_dumper:
+        return yaml_default_dumper
+
+    import yaml
+
+    class DefaultDumper(yaml.SafeDumper):
+        pass
+
+    set_float_implicit_resolver(DefaultDumper)
+
+    yaml_default_dumper = DefaultDumper
+    return yaml_default_dumper
 
 
 def yaml_load(stream):
@@ -220,7 +241,7 @@ dump_json_kwargs = {
 def yaml_dump(data):
     import yaml
 
-    return yaml.safe_dump(data, **dump_yaml_kwargs)
+    return yaml.dump(data, Dumper=get_yaml_default_dumper(), **dump_yaml_kwargs)
 
 
 def yaml_comments_dump(data, parser):
